@@ -19,8 +19,15 @@ CLAIMS = {
         "engine": "V+K",
         "technique": "Verus proof of the real slice_items against a CPython-slice spec (unbounded); Kani full-domain harness on resolve_index",
         "text": "Proof for all lengths and all Option<i128> start/stop and all non-zero i128 steps: Value::slice::slice_items returns exactly the elements Python's slice selects, in order, with every index in bounds and the loop terminating (saturation at the ends of i128 handled); index normalisation resolve_index proved over all i128/u128 indices and all lengths.",
-        "note": "Undecided: the Slice/SliceOpt operand-validation arm of interpret, character-wise string handling beyond bounded harnesses. Assumed: i128::saturating_add and Ord::clamp contracts.",
+        "note": "The Slice/SliceOpt and BinarySubscript arms of interpret are under contract too (operand validation, optional variants). Character-wise string handling: Value::len bounded (<= 3 bytes); string iteration/reverse/truncate harnesses did not finish in CBMC and are NOT decided. Assumed: i128::saturating_add and Ord::clamp contracts.",
         "design_ref": "DESIGN.md section 4 C14, Appendix A.1",
+    },
+    "C15": {
+        "engine": "K+V",
+        "technique": "Kani full-domain loop-free harnesses on KeyNumber / Key Eq-Ord-Hash (recording hasher) and on Value comparison of scalars against a mathematical oracle; Verus units use the order only through its laws",
+        "text": "Proof over the full machine domain: KeyNumber eq is equality of mathematical values and cmp their order across signed/unsigned representations, equal numbers feed an identical byte stream to the hasher; Key eq/cmp over all Bool/U64/I64/U128/I128 pairs is the (rank, value) order, antisymmetric, Equal iff ==, equal keys hash identically across widths; every pair of the five numeric Value encodings compares by exact mathematical value (group numcmp); a float never equals / is never ordered against a non-number; Value::as_key maps each scalar kind to the same-representation Key.",
+        "note": "Strings are bounded (<= 2 bytes). Nested arrays/maps: the structural fallback added by fix fb33f23 (cmp Equal only for ==) is NOT under contract yet — it is exercised only through the C16 unit's assumption; HashMap::get is std's contract; the get_attr scan/hash cutoff equivalence was not reached.",
+        "design_ref": "DESIGN.md section 4 C15",
     },
     "C16": {
         "engine": "V",
@@ -112,6 +119,20 @@ CLAIMS = {
         "text": "Proof: Span::expand keeps the start fields and takes end line/column/range end from the other span; Chunk::expand_span returns None iff an endpoint instruction has no span and otherwise a span that starts where the first starts and ends where the last ends; combine_spans returns the least range covering both.",
         "note": "Line/column bookkeeping in the tokenizer, report_target and SourceLocation slicing are not decided; get_span is a trusted declaration; derived Clone of Span assumed to return an equal value.",
         "design_ref": "DESIGN.md section 4 C12",
+    },
+    "C19": {
+        "engine": "K",
+        "technique": "Kani loop-free full-domain harnesses on the real ValueSerializer / MapKeySerializer (one per primitive) and on the three deserializer entry points with a recording Visitor, decided per half against serde's visitor protocol",
+        "text": "Proof over full primitive domains: serialize_<t>(x) yields exactly the Value kind and payload for every integer width, f32/f64 (same bits), bool, every char (normal, not safe, string), none/unit/some; the key serializer accepts exactly bool/integer/char/str keys (integers of all ten widths map to the key equal to the same mathematical integer) and refuses floats, bytes, none, unit, seq, tuple, map, struct; deserialize_any / deserialize_u64-style hints / deserialize_option on ValueDeserializer, Value and &Value call the matching visit_* with the same payload for every scalar kind (option: visit_some for present values, on all three entry points).",
+        "note": "The end-to-end round trip through serde's own Deserialize impls does not finish in CBMC: serde's impls for primitives, Option, tuples, Vec, maps and derived types are a dependency contract (assumed). Strings/sequences bounded (<= 2-3 bytes / 2 elements). Maps/structs/enums inside the HashMap-backed Map not decided (two genuine defects there were found by native probing and fixed: by-reference Option/enum, newtype structs).",
+        "design_ref": "DESIGN.md section 4 C19",
+    },
+    "C20": {
+        "engine": "K",
+        "technique": "Kani exhaustive enumeration of all 256 byte values through the real private percent-encode sets (observed via percent_encode(&[b], SET))",
+        "text": "Proof by complete enumeration: with the non-strict set a byte is emitted verbatim iff it is an ASCII letter, digit, one of -._~ or '/', otherwise as an upper-case %XX escape of exactly that byte (so '%' itself is escaped and decoding is unambiguous); with the strict set verbatim iff ASCII alphanumeric.",
+        "note": "Losslessness itself rests on the contracts of percent-encoding / base64 / serde_json / slug (third-party, assumed); the base64 option table could not be reached (it sits inside the filter behind Kwargs; encode/decode of 3 bytes exceeded 240 s); json_encode and slug not decided.",
+        "design_ref": "DESIGN.md section 4 C20",
     },
 }
 
